@@ -429,6 +429,15 @@ class Engine:
         # ordering
         if a is None or b is None:
             raise PyExc("TypeError", "ordering comparison with None")
+        inf = float("inf")
+        for u, w, flip in ((a, b, False), (b, a, True)):
+            if isinstance(u, float) and abs(u) == inf and not (isinstance(w, float) and abs(w) == inf):
+                # u is +-inf, w finite
+                less = u < 0            # u < w
+                if flip:
+                    less = not less     # now: a < b
+                    return less if isinstance(op, (ast.Lt, ast.LtE)) else (not less)
+                return less if isinstance(op, (ast.Lt, ast.LtE)) else (not less)
         if (is_num(a) or isinstance(a, bool)) and (is_num(b) or isinstance(b, bool)):
             x, y = a, b
         elif is_intlike(a) and is_intlike(b):
@@ -1153,6 +1162,8 @@ class Engine:
         if isinstance(n.op, ast.USub):
             if isinstance(v, PObj):
                 return self.call_method(v, "__neg__", [], {})
+            if is_num(v):
+                return -v
             return self.binop(ast.Sub(), 0, v)
         if isinstance(n.op, ast.UAdd):
             if isinstance(v, PObj):
@@ -1504,6 +1515,8 @@ class Engine:
             defining_cls = cl.cls
         qn = cl.qualname()
         locals_ = self.bind_args(cl.fdef, args, kwargs, cl)
+        if self_obj is None and cl.cls is not None and isinstance(locals_.get("self"), PObj):
+            self_obj = locals_["self"]
         c = self.contracts.get(qn)
         is_target_top = (self.target is not None and self.target.qualname == qn and not self.call_stack)
         if c is not None and not is_target_top and c.usable_at_call(self, locals_):
